@@ -344,11 +344,11 @@ def State.bufLoading (st : State) (b : String) : List (String × Int) :=
     | .loadBuffer t b' q => if b' == b then dictSet acc t.name q else acc
     | _ => acc) []
 
-/-- tasks in the order of `_level_changes_time` / `_buffer_levels[1:]` -/
+/-- accesses (`<task>_unloading` / `<task>_loading`) in the order of `_level_changes_time` / `_buffer_levels[1:]` -/
 def State.bufAccesses (st : State) (b : String) : List String :=
   st.constrs.filterMap (fun c => match c.body with
-    | .unloadBuffer t b' _ => if b' == b then some t.name else none
-    | .loadBuffer t b' _ => if b' == b then some t.name else none
+    | .unloadBuffer t b' _ => if b' == b then some (t.name ++ "_unloading") else none
+    | .loadBuffer t b' _ => if b' == b then some (t.name ++ "_loading") else none
     | _ => none)
 
 def Buffer.levelVars (b : Buffer) (accesses : List String) : List Term :=
